@@ -78,6 +78,17 @@ m("M-inflight2", "C16", "G-inflight", ("x/sao/keeper/msg_server_store.go", "if l
 m("M-mint1", "C08", "G-mint", ("x/node/abci.go", "\tif err == nil {\n\t\tpool.TotalReward = pool.TotalReward.Add(rewardCoin)", "\tpool.TotalReward = pool.TotalReward.Add(rewardCoin)\n\tif err == nil {"))
 m("M-mint2", "C08", "G-mint", ("x/node/abci.go", "\t\tif reward.LT(rewardCoin.Amount) {\n\t\t\trewardCoin = sdk.NewCoin(params.BlockReward.Denom, reward)\n\t\t}", "\t\trewardCoin = sdk.NewCoin(params.BlockReward.Denom, reward)"))
 m("M-claim", "C08", "T-claim", ("x/node/keeper/msg_server_claim_reward.go", "\tpledge.Reward = remainReward\n", "\t_ = remainReward\n"))
+# ---------------------------------------------------------------- C06 / C07 / C14
+m("M13", "C07", "E7-release", ("x/sao/keeper/msg_server_cancel.go", "err := k.node.ShardRelease(ctx, sdk.MustAccAddressFromBech32(shard.Sp), &shard)", "err := k.node.ShardRelease(ctx, sdk.MustAccAddressFromBech32(msg.Creator), &shard)"))
+m("M14", "C14", "T-couple", ("x/market/keeper/pool_management.go", "\tworker.Storage -= shard.Size_\n", "\tworker.Storage -= order.Size_\n"))
+m("M14b", "C14", "T-couple", ("x/node/keeper/msg_server_remove_vstorage.go", "\tpool.TotalStorage -= size.Int64()\n", "\tpool.TotalStorage -= int64(msg.Size_)\n"))
+m("M29", "C06", "T-bankerr", ("x/sao/keeper/msg_server_renew.go", "\t\t\t\t\terr = k.bank.SendCoinsFromAccountToModule(ctx, spAcc, nodetypes.ModuleName, sdk.Coins{extraPledge})\n\t\t\t\t\tif err != nil {\n\t\t\t\t\t\treturn nil, err\n\t\t\t\t\t}\n", "\t\t\t\t\tk.bank.SendCoinsFromAccountToModule(ctx, spAcc, nodetypes.ModuleName, sdk.Coins{extraPledge})\n"))
+m("M30", "C06", "CAP-macc", ("app/app.go", "\t\tmarketmoduletypes.ModuleName:   {authtypes.Staking},\n", ""))
+m("M-flow", "C06", "E7-flow", ("x/market/keeper/pool_management.go", "\trewardCoin := sdk.NewCoin(denom, worker.Reward.Amount.TruncateInt())\n", "\trewardCoin := sdk.NewCoin(denom, worker.Reward.Amount.TruncateInt())\n\tif worker.Storage == 0 {\n\t\tif err := k.bank.SendCoinsFromModuleToAccount(ctx, types.ModuleName, sdk.MustAccAddressFromBech32(sp), sdk.Coins{rewardCoin}); err != nil {\n\t\t\treturn empty, err\n\t\t}\n\t}\n"))
+m("M-flow2", "C07", "E7-flow", ("x/node/keeper/shard_pledge_management.go", "err := k.bank.SendCoinsFromModuleToAccount(ctx, types.ModuleName, sp, sdk.Coins{shardPledge})", "err := k.bank.SendCoinsFromModuleToAccount(ctx, types.ModuleName, sp, sdk.Coins{shardPledge.AddAmount(sdk.NewInt(1))})"))
+m("M-rmv", "C07", "G-rmv", ("x/node/keeper/msg_server_remove_vstorage.go", "if size.Int64() > pledge.TotalStorage-pledge.UsedStorage {", "if size.Int64() > pledge.TotalStorage {"))
+m("M-used", "C07", "G-used", ("x/node/keeper/shard_pledge_management.go", "if uint64(pledge.TotalStorage-pledge.UsedStorage) < shard.Size_ {", "if uint64(pledge.TotalStorage) < shard.Size_ {"))
+m("M-booked", "C07", "T-booked", ("x/node/keeper/shard_pledge_management.go", "\t\t\t\t\tDebt: shardPledge.Sub(balance),", "\t\t\t\t\tDebt: shardPledge,"))
 # ---------------------------------------------------------------- C01 / C03
 m("M17", "C03", "D3", ("x/node/keeper/node.go", "func (k Keeper) SetNode(ctx sdk.Context, node types.Node) {\n",
    "var nodeCache = map[string]types.Node{}\n\nfunc (k Keeper) SetNode(ctx sdk.Context, node types.Node) {\n\tnodeCache[node.Creator] = node\n"))
@@ -116,6 +127,9 @@ P = [
  ("S-C17-a1", "C17", "G-upd", "/verif/seeded/C17-a1/patch.diff"),
  ("S-C20-a1", "C20", "G-promote", "/verif/seeded/C20-a1/patch.diff"),
  ("S-C03-a1", "C03", "D3", "/verif/seeded/C03-a1/patch.diff"),
+ ("S-C08-a1", "C08", "G-mint", "/verif/seeded/C08-a1/patch.diff"),
+ ("S-C15-a1", "C15", "G-elig-2", "/verif/seeded/C15-a1/patch.diff"),
+ ("S-C16-a1", "C16", "T-forcepush", "/verif/seeded/C16-a1/patch.diff"),
 ]
 for (id, prop, rule, path) in P:
     M.append((id, prop, rule, [("@patch", path, "")]))
